@@ -114,6 +114,44 @@ func genCase(r *h.Run, phase string, idx int) caseT {
 		c.Cfg.SndBuf = 16384
 	}
 	shim := phase == "shim"
+	if idx%6 == 5 {
+		// trickle: one writer, many small and medium writes against a slow reader with small
+		// socket buffers, so that the backlog hovers around one partly flushed buffer and
+		// later writes are merged into it (coalescing / grow-and-copy paths)
+		c.Cfg.SndBuf = 8192
+		c.Cfg.RcvBuf = 0
+		if c.Cfg.Net == "tcp" {
+			c.Cfg.RcvBuf = 8192
+		}
+		var prog []outb.Op
+		n := 80 + rng.Intn(120)
+		total := 0
+		lim := 1500000
+		if c.Cfg.Net == "tcp" && !shim {
+			lim = 400000
+		}
+		for i := 0; i < n && total < lim; i++ {
+			sz := 1 + rng.Intn(24000)
+			if rng.Intn(4) == 0 {
+				sz = 1 + rng.Intn(300)
+			}
+			op := outb.Op{Kind: "write", Sizes: []int{sz}}
+			if rng.Intn(5) == 0 {
+				op = outb.Op{Kind: "writev", Sizes: []int{sz / 3, sz - sz/3}}
+			}
+			if rng.Intn(3) == 0 {
+				op.Pause = rng.Intn(400)
+			}
+			total += sz
+			prog = append(prog, op)
+		}
+		cs := outb.ConnSpec{Writers: [][]outb.Op{prog}, Pacing: "slow"}
+		if shim {
+			cs.Shim = []string{"random", "tiny"}[rng.Intn(2)]
+		}
+		c.Conns = append(c.Conns, cs)
+		return c
+	}
 	nconn := 1 + rng.Intn(2)
 	budget := 6 << 20
 	if c.Cfg.RcvBuf > 0 {
